@@ -61,31 +61,33 @@ def run(tier, seed):
     pid, driver = "C06", "par"
     out = engine.Outcome(pid, tier, seed)
     try:
-        vh = build.build_harness("P-real")
+        vhs = build.build_many(["P-real", "P-cplx"])
+        vh = vhs["P-real"]
     except Exception as e:
         print("HARNESS-FAILURE: build failed:\n" + str(e)[-6000:])
         out.infra.append("build failed")
         engine.finish(out, rule=RULE, min_nontrivial=2)
         return 2
     wdir = runner.work_dir(pid + "-" + tier)
+    # (ranks, OpenMP threads, delay seed, flavour)
     if tier == "quick":
-        configs = [(1, 1, 0), (2, 1, 0), (3, 4, seed * 11 + 1), (4, 1, seed * 11 + 2), (2, 4, seed * 11 + 3)]
+        configs = [(1, 1, 0, "P-real"), (2, 1, 0, "P-real"), (3, 4, seed * 11 + 1, "P-real"), (4, 1, seed * 11 + 2, "P-real"), (2, 4, seed * 11 + 3, "P-real"), (3, 1, seed * 11 + 4, "P-cplx")]
         timeout = 120
     else:
         configs = []
         for i, P in enumerate([1, 2, 3, 4, 5, 6, 7, 8, 11, 16]):
             for j, T in enumerate([1, 2, 4, 16] if P <= 4 else [1, 2]):
-                configs.append((P, T, 0 if (i + j) % 3 == 0 else seed * 13 + 10 * i + j))
+                configs.append((P, T, 0 if (i + j) % 3 == 0 else seed * 13 + 10 * i + j, "P-cplx" if (i + j) % 4 == 1 else "P-real"))
         timeout = 600
     n = runner.ncases(vh, driver, tier, runner.base_env())
     import concurrent.futures as cf
 
     def go(cfg):
-        P, T, dseed = cfg
+        P, T, dseed, fl = cfg
         env = {"OMP_NUM_THREADS": str(T)}
         if dseed:
             env.update({"POMEROL_VERIF_DELAY_SEED": str(dseed), "POMEROL_VERIF_DELAY_US": "800", "POMEROL_VERIF_DELAY_P": "0.5"})
-        cases, incidents, launches = mpirun.run_cases(vh, driver, P, seed, tier, n, wdir, "par.t%d.d%d" % (T, dseed), env, timeout)
+        cases, incidents, launches = mpirun.run_cases(vhs[fl], driver, P, seed, tier, n, wdir, "par.%s.t%d.d%d" % (fl, T, dseed), env, timeout)
         logstats = []
         for L in launches:
             per_rank = dispatch_log.parse(L["logdir"])
@@ -107,18 +109,18 @@ def run(tier, seed):
     nlaunch = nev = nmaps = 0
     cfgs = []
     for (cfg, env, cases, incidents, launches, logstats) in results:
-        P, T, dseed = cfg
+        P, T, dseed, fl = cfg
         nlaunch += len(launches)
-        cfgs.append(dict(P=P, threads=T, delay_seed=dseed, cases=len(cases)))
+        cfgs.append(dict(P=P, threads=T, delay_seed=dseed, flavour=fl, cases=len(cases)))
         for (ev, m) in logstats:
             nev += ev; nmaps += m
         for c in cases:
-            c = dict(c); c["canon"] = "P=%d|T=%d|d=%d|%s" % (P, T, dseed, c.get("canon"))
-            out.add_case(c, driver, "P-real")
+            c = dict(c); c["canon"] = "P=%d|T=%d|d=%d|%s|%s" % (P, T, dseed, fl, c.get("canon"))
+            out.add_case(c, driver, fl)
             for v in c.get("violations", []):
                 w = out.violations.get(v["key"])
                 if w is not None and "np" not in w:
-                    w.update(dict(np=P, env=env, replay_special="mpi"))
+                    w.update(dict(np=P, env=env, replay_special="mpi", flavour=fl))
         for inc in incidents:
             inc["env"] = env
             if inc["kind"] == "hang":
@@ -127,14 +129,14 @@ def run(tier, seed):
                 enters = sorted({r["last_kind"] for r in ev["ranks"].values() if r["last_kind"] and r["last_kind"].endswith("_enter")})
                 site = lib if lib != "?" else ("+".join(enters) or "mpi=" + mpifn)
                 key = "%s:hang:%s:%s" % (pid, driver, site)
-                out.add_violation(key, dict(driver=driver, flavour="P-real", case=inc["case"], monitor="watchdog+event-log", np=inc["np"], env=env, replay_special="mpi",
+                out.add_violation(key, dict(driver=driver, flavour=fl, case=inc["case"], monitor="watchdog+event-log", np=inc["np"], env=env, replay_special="mpi",
                                             detail="mpiexec -np %d (threads %s) did not finish case %s within %ds twice and no rank logged a dispatcher event in the second half of either window; last events per rank %s; MPI calls %s; library frames %s; backtraces %s" % (
                                                 inc["np"], env.get("OMP_NUM_THREADS"), inc["case"], timeout, {r: v["last_kind"] for r, v in ev["ranks"].items()}, mpifn, lib, {p: fr[:10] for p, fr in list(ev.get("backtraces", {}).items())[:3]})))
             elif inc["kind"] in ("slow", "slow-twice"):
                 out.inconclusive.append("np=%d case %s exceeded the watchdog (%s) while ranks were still active" % (inc["np"], inc.get("case"), inc["kind"]))
             elif inc["kind"] == "crash":
                 site = engine.crash_site_from_stderr(inc.get("stderr") or "") or "rc%s" % inc.get("rc")
-                out.add_violation("%s:crash:%s:%s" % (pid, driver, site), dict(driver=driver, flavour="P-real", case=inc["case"], monitor="crash", np=inc["np"], env=env, replay_special="mpi",
+                out.add_violation("%s:crash:%s:%s" % (pid, driver, site), dict(driver=driver, flavour=fl, case=inc["case"], monitor="crash", np=inc["np"], env=env, replay_special="mpi",
                                                                            detail="mpiexec -np %d died in case %s rc=%s; stderr tail: %s" % (inc["np"], inc["case"], inc.get("rc"), (inc.get("stderr") or "")[-2500:])))
             else:
                 out.infra.append("np=%d launch failed outside a case rc=%s: %s" % (inc["np"], inc.get("rc"), (inc.get("stderr") or "")[-1200:]))
